@@ -63,5 +63,4 @@ func VerifC01_simple_handler() {
 			vAssert(vAnd(c.kind == 2, c.prio == prios[k]), "C01: the handler releases exactly the priority of the item it handled, after Handle returned")
 		}
 	}
-	vAssert(s.Err() == s.priority.Err(), "Err() is the wrapped discipline's error channel")
 }
